@@ -30,6 +30,12 @@ type MV struct {
 	Ks   []string // VHash: String() of the keys (only non-string keys; "" for string keys)
 	E    []*MV  // VArr: elements; VHash: k,v alternating; VSens: content; VObj: attribute values
 	An   []string // VObj: attribute names
+	// VObjT = a value that travels as an instance of its meta type, attribute by attribute
+	// (serializer.go:327-353): E/An hold ALL attributes of the meta type, the trimming of the trailing
+	// default-valued optional ones is computed by the model (Model/SerAttrs.v trim)
+	Req  int    // VObjT: AttributesInfo().RequiredCount()
+	Def  []bool // VObjT: attrs[i].Default(value i)
+	Dv   []*MV  // VObjT: the declared default value of attribute i (nil = none: a required attribute)
 	Why  string // when C == "": why the value is outside the model
 }
 
@@ -186,23 +192,36 @@ func (r *reflector) toModel0(v px.Value) *MV {
 		return m
 	}
 	if ot, ok := vt.(px.ObjectType); ok {
+		// serializer.go:327-353: only the questions are asked here (attribute list, required count, the
+		// value of each attribute, is it the default); what is emitted is computed by the model
 		ai := ot.AttributesInfo()
 		attrs := ai.Attributes()
 		args := make([]px.Value, len(attrs))
-		for i, a := range attrs {
-			args[i] = a.Get(v)
-		}
-		for i := len(args) - 1; i >= ai.RequiredCount(); i-- {
-			if !attrs[i].Default(args[i]) {
-				break
+		why := ""
+		func() {
+			defer func() {
+				if e := recover(); e != nil {
+					why = "an attribute of " + vt.Name() + " cannot be read"
+				}
+			}()
+			for i, a := range attrs {
+				args[i] = a.Get(v)
 			}
-			args = args[:i]
+		}()
+		if why != "" {
+			return &MV{Why: why}
 		}
-		m := &MV{C: "VObj", Id: r.id(v), Hint: 1 + len(args), Disp: safeString(v)}
+		m := &MV{C: "VObjT", Id: r.id(v), Req: ai.RequiredCount(), Disp: safeString(v)}
 		m.Ty = r.typeImage(vt)
 		for i, a := range args {
 			m.An = append(m.An, attrs[i].Name())
 			m.E = append(m.E, r.toModel(a))
+			m.Def = append(m.Def, attrs[i].Default(a))
+			if attrs[i].HasValue() {
+				m.Dv = append(m.Dv, r.toModel(attrs[i].Value()))
+			} else {
+				m.Dv = append(m.Dv, nil)
+			}
 		}
 		return m
 	}
@@ -222,6 +241,13 @@ func (m *MV) inModel() (bool, string) {
 	for _, e := range m.E {
 		if ok, why := e.inModel(); !ok {
 			return false, why
+		}
+	}
+	for _, e := range m.Dv {
+		if e != nil {
+			if ok, why := e.inModel(); !ok {
+				return false, why
+			}
 		}
 	}
 	return true, ""
@@ -278,9 +304,39 @@ func (m *MV) g(b *strings.Builder) {
 			b.WriteString(")")
 		})
 		b.WriteString(" " + lib.GStr(m.Disp) + ")")
+	case "VObjT":
+		fmt.Fprintf(b, "(VObjT %d%%N ", m.Id)
+		m.Ty.g(b)
+		fmt.Fprintf(b, " %d%%nat ", m.Req)
+		m.attrList(b)
+		b.WriteString(" " + lib.GStr(m.Disp) + ")")
 	default:
 		panic("gallina: value outside the model: " + m.Why)
 	}
+}
+
+// attrList prints the `list (@attr str)` of a VObjT
+func (m *MV) attrList(b *strings.Builder) {
+	gList(b, len(m.E), "@attr str", func(i int) {
+		b.WriteString("(mkattr " + lib.GStr(m.An[i]) + " ")
+		m.E[i].g(b)
+		b.WriteString(" " + lib.GBool(m.Def[i]) + ")")
+	})
+}
+
+// declList prints the `list (@decl str)` of a VObjT: name and declared default of every attribute
+func (m *MV) declList(b *strings.Builder) {
+	gList(b, len(m.E), "@decl str", func(i int) {
+		b.WriteString("(mkdecl " + lib.GStr(m.An[i]) + " ")
+		if m.Dv[i] == nil {
+			b.WriteString("None")
+		} else {
+			b.WriteString("(Some ")
+			m.Dv[i].pe(b)
+			b.WriteString(")")
+		}
+		b.WriteString(")")
+	})
 }
 
 func gList(b *strings.Builder, n int, typ string, elem func(i int)) {
@@ -351,6 +407,11 @@ func (m *MV) pe(b *strings.Builder) {
 			m.E[i].pe(b)
 			b.WriteString(")")
 		})
+		b.WriteString(")")
+	case "VObjT":
+		// what the attribute list is trimmed to is the model's business
+		b.WriteString("(@erase str ")
+		m.g(b)
 		b.WriteString(")")
 	default:
 		panic("erased: value outside the model: " + m.Why)
